@@ -77,7 +77,8 @@ type Req struct {
 	Method string       `json:"method"`
 	Path   string       `json:"path"`
 	AE     string       `json:"ae"`
-	Kind   string       `json:"kind"` // error-nowrite | written | abuse | panic-before | panic-after | nowrite-ok
+	Cond   string       `json:"cond,omitempty"` // a conditional/range request header line "Name: value" the client adds
+	Kind   string       `json:"kind"`           // error-nowrite | written | abuse | panic-before | panic-after | nowrite-ok
 	Script probe.Script `json:"script"`
 }
 
@@ -168,11 +169,14 @@ func runCase(c *Case) (nontrivial int, err error) {
 		if r.AE != "-" {
 			hdr = append(hdr, [2]string{"Accept-Encoding", r.AE})
 		}
+		if kv := strings.SplitN(r.Cond, ": ", 2); len(kv) == 2 {
+			hdr = append(hdr, [2]string{kv[0], kv[1]})
+		}
 		srv.LogBuf.Reset()
 		resp, rerr := srv.Once(addr, r.Method, srv.Request(r.Method, r.Path, "localhost", hdr, nil))
 		res := probe.Take(s.ID)
 		logs := srv.LogBuf.String()
-		desc := fmt.Sprintf("request %d %s %s AE=%q kind=%s script={status:%d chunks:%d ret:%d err:%q} wrappers=%v", i, r.Method, r.Path, r.AE, r.Kind, s.Status, len(s.Chunks), s.Ret, s.Err, c.Wrappers)
+		desc := fmt.Sprintf("request %d %s %s AE=%q cond=%q kind=%s script={status:%d chunks:%d ret:%d err:%q} wrappers=%v", i, r.Method, r.Path, r.AE, r.Cond, r.Kind, s.Status, len(s.Chunks), s.Ret, s.Err, c.Wrappers)
 		if res == nil {
 			// the request never reached the innermost handler (e.g. a wrapper answered): not this property's subject
 			if rerr != nil {
@@ -314,7 +318,7 @@ func clip(b []byte) string {
 
 // ---------------------------------------------------------------------------
 
-var errStatuses = []int{400, 403, 404, 405, 410, 418, 500, 502, 503}
+var errStatuses = []int{400, 403, 404, 405, 410, 418, 500, 502, 503, 404, 500, 422, 431, 451, 499, 509, 520, 599}
 var writeStatuses = []int{200, 200, 0, 201, 204, 301, 304, 404, 500, 418}
 var paths = []string{"/p/x.html", "/p/x.txt", "/p/x", "/q/y.json", "/", "/p/x.xyz"}
 
@@ -322,6 +326,10 @@ func genReq(t *rapid.T, lb string) Req {
 	r := Req{Method: rapid.SampledFrom([]string{"GET", "GET", "GET", "POST", "HEAD", "DELETE"}).Draw(t, lb+"m"),
 		Path: rapid.SampledFrom(paths).Draw(t, lb+"p"),
 		AE:   rapid.SampledFrom([]string{"-", "gzip", "gzip, br", "identity"}).Draw(t, lb+"ae")}
+	if rapid.IntRange(0, 3).Draw(t, lb+"cond") == 0 {
+		// headers that make file-serving code answer 304/206/412/416; the inner handler's answer must not be affected
+		r.Cond = rapid.SampledFrom([]string{"If-Modified-Since: Fri, 01 Jan 2100 00:00:00 GMT", "If-Modified-Since: Thu, 01 Jan 1970 00:00:01 GMT", "Range: bytes=0-4", "Range: bytes=100000-", "Range: bytes=-3", "If-None-Match: *", "If-Match: \"nope\"", "If-Unmodified-Since: Thu, 01 Jan 1970 00:00:01 GMT", "If-Range: \"x\""}).Draw(t, lb+"condv")
+	}
 	s := probe.Script{Header: map[string][]string{}}
 	k := rapid.IntRange(0, 19).Draw(t, lb+"k")
 	switch {
@@ -422,8 +430,20 @@ func genCase(t *rapid.T) *Case {
 	}
 	sort.Strings(c.Wrappers)
 	n := rapid.IntRange(3, 12).Draw(t, "nreq")
+	hasTemplates := false
+	for _, w := range c.Wrappers {
+		if w == "templates" {
+			hasTemplates = true
+		}
+	}
 	for i := 0; i < n; i++ {
-		c.Reqs = append(c.Reqs, genReq(t, fmt.Sprintf("r%d", i)))
+		r := genReq(t, fmt.Sprintf("r%d", i))
+		if hasTemplates && r.Kind != "error-nowrite" {
+			// templates re-serves what the handler wrote as content of its own and honours
+			// conditional and range requests on it: allowed ("configured changes"), so not generated
+			r.Cond = ""
+		}
+		c.Reqs = append(c.Reqs, r)
 	}
 	return c
 }
